@@ -577,7 +577,7 @@ class C42(core.Check):
         import importlib
         sound = importlib.import_module('pcbasic.basic.sound')
         table = list(sound.NOTE_FREQ)
-        res = [[], [], []]
+        res = [[], [], [], []]         # voices 0..2, then the voices of all tone signals in queue order
         with common.new_session(syntax=case['syntax']) as s:
             s.start()
             impl = s._impl
@@ -628,6 +628,7 @@ class C42(core.Check):
                     else:
                         code = -1
                     per[voice if voice in (0, 1, 2) else 0].append((code, int(vol), dur, freq))
+                    res[3].append(voice)
                 for v, sv in enumerate(st):
                     if sv is None:
                         if per[v]:
@@ -702,14 +703,16 @@ class C42(core.Check):
     def impl(self, case):
         out = []
         obs = self.observe(case)
+        order = []
         if 'multi' in case:
+            order = list(obs[3])
             obs = obs[0] + obs[1] + obs[2]
         for evs, status, octave, fg, fl in obs:
             out.append(len(evs))
             for ev in evs:
                 out += [ev[0], ev[1], 1]
             out += status + [octave, fg, 1, 1, 1]
-        return out
+        return out + order
 
     # ---- model
     @staticmethod
@@ -733,15 +736,28 @@ class C42(core.Check):
     def model_term(self, case):
         obs = self.observe(case)
         if 'multi' in case:
-            # every voice is the one-voice model on its OWN state, over the strings that voice was given
-            parts = []
-            for v in range(3):
-                stmts = []
-                for st, (evs, status, octave, fg, fl) in zip(self.voice_stmts(case, v), obs[v]):
-                    stmts.append('(%s, %s, %s)' % (core.zl(st['b']), self.pairs([ratio(ev[2]) for ev in evs]),
-                                                   self.pairs([ratio(x) for x in fl])))
-                parts.append('play_case %d [] init_state [%s]' % (FUEL, '; '.join(stmts)))
-            return '(%s)' % ' ++ '.join(parts)
+            # the multi-string model play_multi (three states, the turn order of Sound.play_); its per-voice
+            # independence is the theorem C42_multi_voice_independent
+            pos = [0, 0, 0]
+            stmts = []
+
+            def tri(f):
+                return '(%s, %s, %s)' % (f(0), f(1), f(2))
+            for st in case['multi']:
+                rec = []
+                for v in range(3):
+                    if st[v] is None:
+                        rec.append(None)
+                    else:
+                        rec.append(obs[v][pos[v]] if pos[v] < len(obs[v]) else ([], [0, 0], 0, 0, [0, 0, 0]))
+                        pos[v] += 1
+                stmts.append('(%s, %s, %s, %s)' % (
+                    tri(lambda v: '[]' if st[v] is None else core.zl(st[v]['b'])),
+                    tri(lambda v: 'false' if st[v] is None else 'true'),
+                    tri(lambda v: '[]' if rec[v] is None else self.pairs([ratio(ev[2]) for ev in rec[v][0]])),
+                    tri(lambda v: '[]' if rec[v] is None else self.pairs([ratio(x) for x in rec[v][4]]))))
+            return '(flat3 (play_multi_case %d [] (init_state, init_state, init_state) [%s]))' % (
+                FUEL, '; '.join(stmts))
         stmts = []
         for st, (evs, status, octave, fg, fl) in zip(case['stmts'], obs):
             stmts.append('(%s, %s, %s)' % (core.zl(st['b']), self.pairs([ratio(ev[2]) for ev in evs]),
@@ -751,7 +767,7 @@ class C42(core.Check):
     # ---- property oracle
     def nontrivial(self, case, out):
         if 'multi' in case:
-            return any(len(o[0]) > 0 for ov in self.observe(case) for o in ov)
+            return any(len(o[0]) > 0 for ov in self.observe(case)[:3] for o in ov)
         return any(len(o[0]) > 0 for o in self.observe(case))
 
     @staticmethod
